@@ -383,6 +383,12 @@ def run(prop, tier, seed, known):
                 if s0_ is not None and s1_ is not None and (abs(s0_['Raw Pitch Accuracy'] - s1_['Raw Pitch Accuracy']) > 1e-9 or abs(s0_['Raw Chroma Accuracy'] - s1_['Raw Chroma Accuracy']) > 1e-9):
                     fails.append('octave/sign: negating the estimated frequencies changes raw pitch / raw chroma accuracy when the estimate starts after time 0: %s vs %s'
                                  % ((s0_['Raw Pitch Accuracy'], s0_['Raw Chroma Accuracy']), (s1_['Raw Pitch Accuracy'], s1_['Raw Chroma Accuracy'])))
+                # a single-frame estimate (at time 0, and later), and a single-frame reference, against a longer annotation: valid input
+                for args_, what_ in (((tt, rf, tt[:1], ef[:1]), 'one-frame estimate at time 0'), ((tt, rf, tt[1:2], ef[1:2]), 'one-frame estimate after time 0'),
+                                     ((tt[:1], rf[:1], tt, ef), 'one-frame reference')):
+                    o1_ = guard('melody.evaluate (%s)' % what_, lambda: melody.evaluate(*args_))
+                    if o1_ is not None and not all(np.isfinite(v_) and -1e-9 <= v_ <= 1 + 1e-9 for v_ in o1_.values()):
+                        fails.append('melody.evaluate (%s) out of [0, 1]: %s' % (what_, dict(o1_)))
                 # optional voicing / reward arrays, each alone and together, with an estimate (or a reference) that starts after time 0: valid input
                 ev_ = (le_ != 0).astype(float)
                 rw_ = np.ones(len(tt))
@@ -545,6 +551,21 @@ def run(prop, tier, seed, known):
                             ('chord.seg (estimate)', lambda a: _chord.seg(good_iv, a)),
                             ('transcription.onset_precision_recall_f1 (estimate)', lambda a: T.onset_precision_recall_f1(good_iv, a)),
                             ('transcription.offset_precision_recall_f1 (reference)', lambda a: T.offset_precision_recall_f1(a, good_iv))]
+                one_row_bad_ = [('one row, negative time', np.array([[-1.0, 2.0]])), ('one row, zero duration', np.array([[1.0, 1.0]])),
+                                ('one row, end before start', np.array([[2.0, 1.0]])), ('one row, three columns', np.array([[0.0, 1.0, 2.0]]))]
+                for sname_, arr_ in one_row_bad_:
+                    for ename_, call_ in (('segment.detection(trim=True) (reference)', lambda a: _segment.detection(a, good_iv, trim=True)),
+                                          ('segment.detection(trim=True) (estimate)', lambda a: _segment.detection(good_iv, a, trim=True)),
+                                          ('segment.deviation(trim=True) (estimate)', lambda a: _segment.deviation(good_iv, a, trim=True)),
+                                          ('segment.detection (estimate)', lambda a: _segment.detection(good_iv, a))):
+                        n += 1
+                        try:
+                            r_ = call_(arr_.copy())
+                            fails.append('%s accepted (no ValueError raised) a malformed interval array (%s) and returned %r' % (ename_, sname_, r_))
+                        except ValueError:
+                            pass
+                        except Exception as ex:
+                            fails.append('%s raised %s instead of ValueError for a malformed interval array (%s)' % (ename_, type(ex).__name__, sname_))
                 for sname_, arr_ in shapes_:
                     for ename_, call_ in entries_:
                         n += 1
